@@ -244,6 +244,52 @@ def _ew_shard(args):
     return n, bad
 
 
+def _ewmix_shard(s1_list):
+    """call histories of depth 2 over the operand precision: Vela asks elementwise_mul_scale for one scale triple in float32 arithmetic (the command
+    stream generator, as the TFLite kernel: float product and quotient) and in double (table lowerings, LSTM).  Each answer must be the reference
+    derivation IN THE ARITHMETIC OF ITS OPERANDS whichever of the two was asked first in the process; quantise_scale likewise for a value given as
+    np.float32 / float / np.float64."""
+    core.bind_repo(need_codec=False)
+    from ethosu.vela import scaling
+
+    vals = [float(np.float32(v)) for v in _ew_cases()] + [1.0]
+    bad = []
+    n = 0
+    tol = Fr(1, 1 << 30)
+
+    def ref(s1, s2, so, single):
+        if single:
+            return Fr(float((np.float32(s1) * np.float32(s2)) / np.float32(so)))
+        return Fr(float(s1) * float(s2) / float(so))
+
+    def judge(m, sh, exact, key, what):
+        em, esh = ref_qm(exact)
+        if not (0 <= esh < 64):
+            return
+        val = Fr(int(m), 1 << int(sh)) if sh >= 0 else Fr(int(m) * (1 << -int(sh)))
+        if abs(val - exact) > exact * tol:
+            bad.append((what, key, "returned (%d, %d) = %.12g, reference derivation in that arithmetic gives %.12g (relative error 2^%.1f)" % (
+                m, sh, float(val), float(exact), math.log2(float(abs(val - exact) / exact)))))
+
+    i = 0
+    for s1 in s1_list:
+        s1 = float(np.float32(s1))
+        for s2 in vals:
+            for so in vals:
+                i += 1
+                first_single = i % 2 == 0
+                for single in (first_single, not first_single):
+                    conv = np.float32 if single else np.float64
+                    # the second operand is also given as the Python int 1 where it is one (as the table lowerings do)
+                    a2 = 1 if (s2 == 1.0 and not single) else conv(s2)
+                    m, sh = scaling.elementwise_mul_scale(conv(s1), a2, conv(so))
+                    n += 1
+                    judge(m, sh, ref(s1, s2, so, single), (s1, s2, so), "mul|%s-after-%s" % ("f32" if single else "f64", "nothing" if single == first_single else ("f32" if first_single else "f64")))
+                if len(bad) > 10:
+                    return n, bad
+    return n, bad
+
+
 def _ewreg_cases():
     """(sub-op, data type, s1, s2, so): equal, one float32 ulp apart, almost equal, clearly different input scales"""
     out = []
@@ -403,6 +449,9 @@ def _poolreg_shard(cases):
 
 
 def replay(ctx, case):
+    if case.get("kind") == "ewmix":
+        n, bad = _ewmix_shard([case["s1"]])
+        return [str(b) for b in bad]
     if case.get("kind") == "poolreg":
         n, bad = _poolreg_shard([tuple(case["case"])])
         return [b[1] for b in bad]
@@ -531,6 +580,14 @@ def run(ctx):
         ctx.count("elementwise_triples", n)
         for what, key, msg in bad:
             ctx.violation("%s|%s" % (what, key), "%s %s: %s" % (what, key, msg), dict(kind="ew", s1=key[0], s2=key[1], so=key[2]))
+    s1s = [v for v in _ew_cases()]
+    seenm = set()
+    for n, bad in pmap(_ewmix_shard, [s1s[i:i + 4] for i in range(0, len(s1s), 4)]):
+        ctx.count("elementwise_mixed_precision_calls", n)
+        for what, key, msg in bad:
+            if what not in seenm:
+                seenm.add(what)
+                ctx.violation("ewmix|%s" % what, "elementwise_mul_scale%s: %s" % (key, msg), dict(kind="ewmix", s1=key[0]))
     c = ctx.counters
     cov = dict(
         evaluations=c.get("f32_calls", 0) + c.get("f64_calls", 0) + c.get("pool_evals", 0) + c.get("elementwise_triples", 0),
